@@ -2,6 +2,7 @@
 // Values are read through the public members `numerator` / `denominator`.
 #include "vh.h"
 
+#include <algorithm>
 #include <cmath>
 #include <functional>
 using namespace cnl;
@@ -247,7 +248,7 @@ inline void equal8(Rng& rng, int part, int nparts, unsigned stride)
 // wider and mixed component types: boundary lattice, small values, equal-valued constructions
 
 template<class F>
-std::vector<F> lattice_fracs(Rng& rng, int nlattice, int nsmall)
+std::vector<F> lattice_fracs(Rng& rng, int nlattice, int nsmall, int ntight)
 {
     using N = typename F::numerator_type;
     using D = typename F::denominator_type;
@@ -284,6 +285,27 @@ std::vector<F> lattice_fracs(Rng& rng, int nlattice, int nsmall)
             if (rng.below(2)) k = -k;
         if (i % 2 == 0) v.push_back(F(N(n * k), D(d * k)));
     }
+    // "tight" magnitudes: components of about half the width of the type the cross products are computed in
+    // (int for 8/16-bit components), so that products land next to the top of that type on either side of the
+    // "cross products fit" guard: 2^(W-4) .. 2^W, the sign bit of signed and the top bit of unsigned types included
+    constexpr int W = std::max({32, int(8 * sizeof(N)), int(8 * sizeof(D))});
+    for (int i = 0; i < ntight; ++i) {
+        auto pick = [&](int digits) {
+            int bits = std::min(digits, W / 2 - 2 + rng.below(3));
+            unsigned long long m = (rng.next() & ((1ull << (bits - 1)) - 1)) | (1ull << (bits - 1));
+            if (rng.below(4) == 0) m = (1ull << (bits - 1)) | ((1ull << (bits - 1)) - 1);  // all ones
+            if (rng.below(6) == 0) m = 1ull << (bits - 1);                                   // single bit
+            return m;
+        };
+        unsigned long long n = pick(LN::digits), d = pick(LD::digits);
+        N nn = N(n);
+        D dd = D(d);
+        if constexpr (std::is_signed_v<N>)
+            if (rng.below(2)) nn = N(-nn);
+        if constexpr (std::is_signed_v<D>)
+            if (rng.below(2)) dd = D(-dd);
+        v.push_back(F(nn, dd));
+    }
     return v;
 }
 
@@ -291,8 +313,8 @@ template<class FA, class FB>
 void wide(Rng& rng)
 {
     int sc = scale_from_env();
-    auto A = lattice_fracs<FA>(rng, 16 * sc, 24 * sc);
-    auto B = lattice_fracs<FB>(rng, 16 * sc, 24 * sc);
+    auto A = lattice_fracs<FA>(rng, 16 * sc, 24 * sc, 14 * sc);
+    auto B = lattice_fracs<FB>(rng, 16 * sc, 24 * sc, 14 * sc);
     // make sure some pairs across A and B are equal-valued
     if constexpr (std::is_same_v<FA, FB>)
         for (std::size_t i = 0; i < A.size(); i += 5) B.push_back(A[i]);
